@@ -12,6 +12,7 @@ import (
 
 func main() {
 	r := vlib.Start("C15", "exploration")
+	r.ScaleQuick(4) // quick tier: 4x the case counts written at the sections (still well under a minute)
 	r.Rule("seeded meshes (empty, single face, shared/duplicated vertices, duplicated and degenerate faces, float32 extremes, subnormals, ties, negative zero, vertices that merge in float32, up to 50k faces), random PLY headers (1-4 elements, 0-6 scalar/list properties of all 16 type names, any integer list-length type, counts incl. 0, three formats) with values at type limits, and ASCII STL / OFF / coloured PLY text written by the harness from the specifications; every file is checked against an independent reference encoding/decoding and through the library's reader; a case is non-trivial if it has >= 2 faces/rows (PLY: >= 2 elements); distinct by content hash")
 	r.Assume("NaN coordinates and coordinates that overflow float32 are not generated for mesh APIs (vertex tables are keyed by coordinate); NaN/Inf appear only as binary PLY property values")
 	r.Assume("formats that de-duplicate vertices by coordinate (PLY, OBJ, 3MF) may return +0 for -0: those are compared numerically; STL, OFF and CSV are compared bit for bit")
